@@ -195,6 +195,13 @@ func H_C17_update() {
 		vrt.Assert("graph construction accepted", false)
 		return
 	}
+	// a second graph over the same leaf, built before any back-propagation (its gradient adds up later)
+	h, he := mk("h", dims, false)
+	root2, err := w.Mul(h)
+	if err != nil {
+		vrt.Assert("graph construction accepted", false)
+		return
+	}
 	if !backprop("sgd", root) {
 		return
 	}
@@ -223,6 +230,21 @@ func H_C17_update() {
 	checkTensor("previous tensor unchanged", old, dims, we)
 	vrt.Assert("previous tensor keeps its gradient object", old.Gradient() == oldGrad)
 	checkTensor("previous gradient unchanged", oldGrad, dims, ge)
+	// the same tensor object stepped again after its gradient changed: the CURRENT gradient counts
+	if !backprop("sgd second graph", root2) {
+		return
+	}
+	ptr2 := w
+	uerr = opt.Update(&ptr2)
+	vrt.Assert("second update of the same tensor succeeds", uerr == nil)
+	if uerr != nil || ptr2 == nil {
+		return
+	}
+	want2 := make([]float64, len(we))
+	for k := range want2 {
+		want2[k] = we[k] - lr*(ge[k]+he[k])
+	}
+	checkTensor("SGD uses the tensor's current gradient on every call", ptr2, dims, want2)
 	vrt.Reach("done")
 }
 
